@@ -14,7 +14,7 @@ import tempfile
 
 from rv import gen
 from rv.monitors import audit
-from rv.monitors.probe import Probe, Trace, InjectedFault
+from rv.monitors.probe import Probe, Trace, InjectedFault, InjectedInterrupt
 
 ID = "C18"
 LEVEL = "fault_enumeration"
@@ -58,7 +58,8 @@ def cases(tier, seed):
     nmax = NMAX[tier]
     for shape in SHAPES:
         for n in range(0, nmax + 1):
-            for ctx in [False, True]:
+            for ctx in [False, True] + (["special"] if shape not in ("acc", "grow") and n >= 2
+                                        else []):
                 crashes = [None]
                 n_out = 2 if shape == "acc" else n
                 for k in range(0, n_out + 1):
@@ -68,6 +69,12 @@ def cases(tier, seed):
                 for k in range(0, n_out):
                     if shape != "last":
                         crashes.append(["downstream", k])
+                # the same faults raised as a KeyboardInterrupt (not an Exception subclass)
+                for k in range(0, n):
+                    crashes.append(["upstream-interrupt", k])
+                for k in range(0, n_out):
+                    if shape != "last":
+                        crashes.append(["downstream-interrupt", k])
                 for crash in crashes:
                     for li, later in enumerate(LATERS):
                         if "drop2" in later and shape not in ("two", "adjacent"):
@@ -87,9 +94,13 @@ class Counters(object):
 
 
 def _add(v, d):
+    def plus(x):
+        if isinstance(x, (int, float)) and not isinstance(x, bool):
+            return x + d
+        return x            # None, "", (), False pass as they are
     if gen.has_ctx(v):
-        return (v[0] + d, v[1])
-    return v + d
+        return (plus(v[0]), v[1])
+    return plus(v)
 
 
 class Up(object):
@@ -111,14 +122,15 @@ class Mid(object):
 
 
 class Down(object):
-    def __init__(self, c, raise_at=None):
+    def __init__(self, c, raise_at=None, exc=InjectedFault):
         self.c = c
         self.raise_at = raise_at
+        self.exc = exc
 
     def __call__(self, v):
         if self.raise_at is not None and self.c.down == self.raise_at:
             self.c.down += 1
-            raise InjectedFault("downstream fault at value %d" % self.raise_at)
+            raise self.exc("downstream fault at value %d" % self.raise_at)
         self.c.down += 1
         if gen.has_ctx(v):
             return (("down", v[0]), v[1])
@@ -160,6 +172,11 @@ class Grow(object):
 
 def make_flow(n, ctx, j):
     base = [1 + i + 1000 * j for i in range(n)]
+    if ctx == "special":
+        # bare values that are None or false between the numbers (picklable like any other)
+        specials = [None, 0, False, "", (), 0.0]
+        return [v if i % 2 == 0 else specials[(i // 2 + j) % len(specials)]
+                for i, v in enumerate(base)]
     if ctx:
         return [(v, {"i": v, "nest": {"k": [v]}}) for v in base]
     return base
@@ -203,7 +220,7 @@ class Pipeline(object):
     """One instrumented run of the shape. Fresh lena objects each time."""
 
     def __init__(self, shape, d, flow, recompute=False, fault_at=None, down_raise_at=None,
-                 hoist=None):
+                 hoist=None, fault_exc=InjectedFault):
         import lena.core
         import lena.flow
         self.c = Counters()
@@ -214,13 +231,14 @@ class Pipeline(object):
         if shape in ("split", "split2"):
             hoist = None     # hoisting is Split's own business (it calls alter_sequence)
         vals = copy.deepcopy(flow)
-        self.probe = Probe(self.trace, n=len(vals), make=lambda i: vals[i], fault_at=fault_at)
+        self.probe = Probe(self.trace, n=len(vals), make=lambda i: vals[i], fault_at=fault_at,
+                           fault_exc=fault_exc)
         f1 = os.path.join(d, "c1.pkl")
         f2 = os.path.join(d, "c2.pkl")
         self.files = [f1, f2]
         c, probe = self.c, self.probe
         C = lena.flow.Cache
-        down = Down(c, down_raise_at)
+        down = Down(c, down_raise_at, fault_exc)
         self.hoisted_type = None
         if shape == "seq":
             seq = lena.core.Sequence(Up(c), C(f1, recompute=recompute), down)
@@ -292,7 +310,7 @@ class Pipeline(object):
             else:
                 for _ in range(take):
                     got.append(gen.freeze(next(it)))
-        except InjectedFault as e:
+        except (InjectedFault, InjectedInterrupt) as e:
             exc = e
         finally:
             # the consumer stops: drop / close the generator chain
@@ -339,7 +357,7 @@ def _run_case(r, obs, d):
         obs.nontrivial = True
     flow0 = make_flow(n, ctx, 0)
     full0 = ref_output(shape, flow0)
-    sig = "%s%s" % (shape, ":ctx" if ctx else "")
+    sig = "%s%s" % (shape, ":special-values" if ctx == "special" else ":ctx" if ctx else "")
 
     # ---------------------------------------------------------------- first run
     audit.start(prefix=d)
@@ -364,17 +382,22 @@ def _run_case(r, obs, d):
             if shape == "split2":
                 want += n       # the other branch's n outputs come first
             got, exc = p.run(take=want)
-        elif kind == "upstream":
-            p = Pipeline(shape, d, flow0, fault_at=k)
+        elif kind.startswith("upstream"):
+            p = Pipeline(shape, d, flow0, fault_at=k,
+                         fault_exc=InjectedInterrupt if kind.endswith("interrupt")
+                         else InjectedFault)
             got, exc = p.run()
         else:
-            p = Pipeline(shape, d, flow0, down_raise_at=k)
+            p = Pipeline(shape, d, flow0, down_raise_at=k,
+                         fault_exc=InjectedInterrupt if kind.endswith("interrupt")
+                         else InjectedFault)
             got, exc = p.run()
         obs.count("pulls_observed", p.pulls())
         obs.check(got == full0[:len(got)], "interrupted-first-run-wrong-prefix:" + shape,
                   "interrupted first run (%r) yielded %r, not a prefix of %r" % (crash, got, full0))
         if kind != "consumer":
-            obs.check(isinstance(exc, InjectedFault), "injected-fault-swallowed:" + shape,
+            obs.check(isinstance(exc, (InjectedFault, InjectedInterrupt)),
+                      "injected-fault-swallowed:" + shape,
                       "the injected %s fault did not propagate (got %r, exc %r)" % (kind, got, exc))
         stored = None
         complete = False
